@@ -11,6 +11,9 @@ Cases ==
                                                       c \in {"plain", "quotes", "nonascii", "long",
                                                             (* values other conventions give a meaning to *)
                                                             "at-prefix", "dash-prefix", "format", "shell", "path-like", "url-like", "json-like", "multiline"}}
+  (* servers that offer keyboard-interactive authentication only; the prompts and their "echo" flags are the server's *)
+  \cup {[transport |-> "ssh", stage |-> s, secret |-> c] :
+          s \in {"kbd-hidden", "kbd-login-then-password", "kbd-echoed-passcode", "kbd-echoed-odd-prompts"}, c \in {"plain", "quotes", "nonascii"}}
   \cup {[transport |-> "tls", stage |-> s, secret |-> "key"] : s \in {"refused", "handshake-fails", "closed-after-handshake", "established"}}
   \cup {[transport |-> "agent", stage |-> s, secret |-> c] : s \in {"refused", "handshake-fails", "closed-after-handshake"},
                                                         c \in {"key", "combined-pem"}}
